@@ -160,6 +160,7 @@ def _node_reads_defs(node) -> Tuple[List[ast.Name], Set[str]]:
         if isinstance(a.target, ast.Name):
             n = ast.Name(id=a.target.id, ctx=ast.Load())
             ast.copy_location(n, a.target)
+            n._origin = a.target  # the node in the tree (for the questions about enclosing statements)
             rs.append(n)
             return rs, {a.target.id}
         return rs + _reads(a.target), set()
@@ -283,9 +284,72 @@ def _enclosing_ifs(fn: ast.AST, target: ast.AST) -> List[Tuple[ast.If, bool]]:
     return chain
 
 
+def _binding_sites(fn: ast.AST, name: str) -> List[ast.AST]:
+    return [x for x in _own_nodes(fn) if isinstance(x, ast.Name) and isinstance(x.ctx, ast.Store) and x.id == name]
+
+
+def _enclosing(fn: ast.AST, target: ast.AST, kinds) -> List[ast.AST]:
+    """statements of the given kinds around a node, outermost first"""
+    chain: List[ast.AST] = []
+
+    def rec(n: ast.AST, acc) -> bool:
+        if n is target:
+            chain.extend(acc)
+            return True
+        for ch in ast.iter_child_nodes(n):
+            if rec(ch, acc + [n] if isinstance(n, kinds) else acc):
+                return True
+        return False
+
+    rec(fn, [])
+    return chain
+
+
 def _correlated(fn: ast.AST, rd: ast.Name, cfg: CFG) -> bool:
-    """the read sits under `if T` and every binding-free route would need `not T`: some earlier `if T` (same text,
-    names of T not re-bound in between) binds the name on its matching side"""
+    """Reasons for NOT reporting a read the plain analysis finds unbound - patterns in which the routes the analysis
+    worries about may be infeasible, which no shape of the code decides:
+    (1) the read sits under `if T` and an earlier `if T` (same text, names of T not re-bound in between) binds the name;
+    (2) flag idiom: the read is guarded by a test over a name that is assigned in the same branch as a binding;
+    (3) first-iteration idiom: the read is in a loop body and the same loop body binds the name under some condition;
+    (4) case analysis: the name is bound under two or more sibling `if` statements (their tests may be exhaustive)."""
+    rd = getattr(rd, "_origin", rd)
+    binds = _binding_sites(fn, rd.id)
+    ifs_rd = _enclosing(fn, rd, (ast.If,))
+
+    def branch_of(c: ast.If, node: ast.AST) -> Optional[str]:
+        for name in ("body", "orelse"):
+            if any(node is x for st in getattr(c, name) for x in ast.walk(st)):
+                return name
+        return None
+
+    def own_ifs(b):
+        """the `if`s around a binding that are not around the read as well (or hold it in their other branch)"""
+        return [c for c in _enclosing(fn, b, (ast.If,)) if not any(c is d for d in ifs_rd) or branch_of(c, b) != branch_of(c, rd)]
+
+    # (3)
+    loops_rd = _enclosing(fn, rd, (ast.For, ast.While))
+    for b in binds:
+        if b is rd:
+            continue
+        if any(l in _enclosing(fn, b, (ast.For, ast.While)) for l in loops_rd) and own_ifs(b):
+            return True
+    # (2)
+    guards = {x.id for c in _enclosing(fn, rd, (ast.If, ast.While)) for x in ast.walk(c.test) if isinstance(x, ast.Name)}
+    for b in binds:
+        for c in _enclosing(fn, b, (ast.If,)):
+            for branch in (c.body, c.orelse):
+                if any(b is x for st in branch for x in ast.walk(st)):
+                    stored = {x.id for st in branch for x in ast.walk(st) if isinstance(x, ast.Name) and isinstance(x.ctx, ast.Store)}
+                    if stored & guards:
+                        return True
+    # (4)
+    cond_owners = []
+    for b in binds:
+        ifs = own_ifs(b)
+        if ifs:
+            cond_owners.append(ifs[-1])
+    if len({id(c) for c in cond_owners}) >= 2:
+        return True
     here = _enclosing_ifs(fn, rd)
     if not here:
         return False
